@@ -176,7 +176,9 @@ def sep_of(kind, opts):
 
 SEQS = {
     'int': [['3', '1', '2'], ['1', '1'], ['2', '1', '2', '3'], ['0', '5', '0'], ['-4', '3', '-4', '+1'], ['7'], [],
-            ['5', '0', '5', '0', '1']],
+            ['5', '0', '5', '0', '1'],
+            # more distinct values than a fixed-size destination (4 elements) can hold, with and without duplicates
+            ['1', '2', '3', '4', '5'], ['6', '5', '5', '4', '3', '2', '1']],
     'vs': [['b', 'a', 'B'], ['ab', 'ab'], ['c', 'a', 'c', 'b'], ['x'], []],
     'ti': [['7', 'x', '9'], ['7', 'x'], ['7', 'x', '9', '4'], ['x', '7', '9'], []],
     'bs': [['3', '1', '3'], ['0', '15'], ['2', '16'], ['4', '1', '9', '1'], []],
